@@ -48,6 +48,23 @@ def fresh_name(prefix):
     return '%s!%d' % (prefix, next(_counter))
 
 
+def counter_peek():
+    global _counter
+    n = next(_counter)
+    _counter = itertools.chain([n], _counter)
+    return n
+
+
+def var_serial(name):
+    i = name.rfind('!')
+    if i < 0:
+        return -1
+    try:
+        return int(name[i + 1:])
+    except ValueError:
+        return -1
+
+
 def reset_counter():
     """names need to be unique within one function's analysis only; restarting makes queries reproducible
     (and cacheable) regardless of the order in which functions are analysed."""
